@@ -27,12 +27,13 @@ func C03(r *core.Run) {
 	r.Explanation = "Membership guards and field provenance of object listings in all four backends, on all paths (not order, not the string semantics of Prefix.Match): " +
 		"(R03.1) every ObjectList.Add/AddPrefix is reachable only after a positive prefix test of the very key being added (Prefix.Match, or the HasPrefix test on the directory entry in the fs file-prefix walkers), Add only on the not-grouped arm and AddPrefix only on the grouped / directory arm; " +
 		"(R03.2) delete-marked keys are never listed and the listed Key is the iterated key; (R03.3) listed ETag and Size come from the same stored record as the Key; " +
-		"(R03.4) the two fs backends' listing helpers agree argument by argument; (R03.5) AddPrefix de-duplicates; (R02.7) deleting a nested key leaves no empty directory behind to be listed as a phantom prefix."
+		"(R03.4) the two fs backends' listing helpers agree argument by argument; (R03.5) AddPrefix de-duplicates; (R03.6) a listing loop passes over a key only for the admissible reasons (no match, delete marker, prefix already reported); (R02.7) deleting a nested key leaves no empty directory behind to be listed as a phantom prefix."
 	r.NotDecided = "ascending byte order (false today on the fs backends without a delimiter: directory-walk order), the semantics of Prefix.Match, delimiters other than '/', that every live key is visited (completeness of the iteration)"
 	rule031(r)
 	rule033(r)
 	rule034(r)
 	rule035(r)
+	rule036(r)
 	rule027(r)
 }
 
@@ -584,4 +585,117 @@ func rule035(r *core.Run) {
 		vs := r.P.SliceOf(appendSt.Val, core.SliceOpts{Depth: -1})
 		r.Check(dedup && recorded && vs.HasValue(pp), "R03.5", key(n, "dedupe"), pos(r, appendSt), "append only for a prefix not yet seen, then recorded", "AddPrefix can append a prefix that was already added (or does not record it): a CommonPrefix appears twice")
 	}
+}
+
+// rule036 — no live, matching key is silently skipped by a listing loop.
+func rule036(r *core.Run) {
+	r.Rule("R03.6", "in the listing loops of the memory and bolt backends the only ways to go on to the next key without listing the current one (Add or AddPrefix) are: the prefix does not match, the current version is a delete marker, or the common prefix was already reported; in the fs file-prefix walkers: the entry name does not have the requested prefix part")
+	type spec struct {
+		fn      string
+		allowed func(fn *ssa.Function, iff *ssa.If, branch bool) bool
+	}
+	matchFalse := func(fn *ssa.Function, iff *ssa.If, branch bool) bool {
+		cd := core.CondOf(iff.Cond)
+		if c, ok := cd.X.(*ssa.Call); ok && r.P.CalleeName(c) == "gofakes3.(Prefix).Match" {
+			return (branch != cd.Neg) == false
+		}
+		return false
+	}
+	specs := []spec{
+		{"s3mem.(*Backend).ListBucket", func(fn *ssa.Function, iff *ssa.If, branch bool) bool {
+			if matchFalse(fn, iff, branch) {
+				return true
+			}
+			cd := core.CondOf(iff.Cond)
+			truth := branch != cd.Neg
+			s := r.P.SliceOf(iff.Cond, core.SliceOpts{Depth: -1})
+			if isLoadOf(r, cd.X, "s3mem.bucketData.deleteMarker") && cd.Op == 0 && truth {
+				return true
+			}
+			// match.MatchedPart == lastMatchedPart
+			if cd.Op == token.EQL && truth && (isLoadOf(r, cd.X, "gofakes3.PrefixMatch.MatchedPart") || isLoadOf(r, cd.Y, "gofakes3.PrefixMatch.MatchedPart")) {
+				return true
+			}
+			_ = s
+			return false
+		}},
+		{"s3bolt.(*Backend).ListBucket$1", matchFalse},
+		{"s3afero.(*MultiBucketBackend).getBucketWithFilePrefixLocked", nil},
+		{"s3afero.(*SingleBucketBackend).getBucketWithFilePrefixLocked", nil},
+	}
+	hasPrefixSkipEdge := func(fn *ssa.Function, iff *ssa.If, branch bool) bool {
+		cd := core.CondOf(iff.Cond)
+		c, ok := cd.X.(*ssa.Call)
+		if !ok || r.P.CalleeName(c) != "strings.HasPrefix" {
+			return false
+		}
+		// the edge on which HasPrefix(entryName, prefixPart) is false, reached only with prefixPart != ""
+		if (branch != cd.Neg) != false {
+			return false
+		}
+		ns := r.P.SliceOf(c.Call.Args[0], core.SliceOpts{Depth: -1, NoIndex: true})
+		return ns.HasPrefix("call:invoke:io/fs.FileInfo.Name") || ns.HasPrefix("call:invoke:os.FileInfo.Name")
+	}
+	for _, sp := range specs {
+		fn := mustFunc(r, sp.fn)
+		if fn == nil {
+			continue
+		}
+		allowed := sp.allowed
+		if allowed == nil {
+			allowed = hasPrefixSkipEdge
+		}
+		var adds []ssa.Instruction
+		for _, s := range addSites(r) {
+			if s.fn == fn {
+				adds = append(adds, s.call)
+			}
+		}
+		if len(adds) == 0 {
+			continue
+		}
+		// loop head: the innermost loop test guarding an add
+		var head *ssa.If
+		for _, g := range core.GuardsOf(adds[0]) {
+			cd := core.CondOf(g.If.Cond)
+			isLoop := false
+			if c, ok := cd.X.(*ssa.Call); ok && r.P.CalleeName(c) == "goskipiter.(*Iterator).Next" && g.Branch {
+				isLoop = true
+			}
+			if cd.Op == token.LSS && isLenCall(cd.Y) && g.Branch {
+				isLoop = true
+			}
+			if cd.Op == token.NEQ && core.IsNilConst(cd.Y) && g.Branch {
+				// bolt cursor loop: k != nil
+				s := r.P.SliceOf(cd.X, core.SliceOpts{Depth: -1})
+				if s.HasPrefix("call:(*go.etcd.io/bbolt.Cursor).") {
+					isLoop = true
+				}
+			}
+			if isLoop && (head == nil || head.Block().Dominates(g.If.Block())) {
+				head = g.If
+			}
+		}
+		if head == nil {
+			r.Unresolved("R03.6: listing loop of %s not recognised", sp.fn)
+			continue
+		}
+		body := head.Block().Succs[0]
+		f := fn
+		skip, at := core.SilentSkip(body, head.Block(), func(in ssa.Instruction) bool {
+			for _, a := range adds {
+				if in == a {
+					return true
+				}
+			}
+			// an error return inside the loop is not a silent skip
+			return false
+		}, func(iff *ssa.If, branch bool) bool { return allowed(f, iff, branch) })
+		p0 := pos(r, head)
+		if at != nil {
+			p0 = pos(r, at)
+		}
+		r.Check(!skip, "R03.6", key(sp.fn, "no silent skip of a live matching key"), p0, "every live key that matches is listed or grouped", "a live key that matches the prefix can be passed over without being listed or grouped (a condition other than the admissible ones continues the loop)")
+	}
+	r.Floor("R03.6", 4, "listing loops")
 }
